@@ -119,9 +119,23 @@ class Proto(object):
         if ad.kind == 'def':
             return self.table_id(cv, v)
         try:
-            return self.F.attrdef_value(ad, cv)
+            return self._instance_view(self.F.attrdef_value(ad, cv), cv, v)
         except FoldRaise as e:
             return Raises(e.exc_type, e.exc_args)
+
+    def _instance_view(self, val, cv, v):
+        """A class attribute that holds an instance of an in-repo descriptor
+        class (id = overridable_property(getter)): what an instance of the
+        packet with the context of version v reads through its __get__."""
+        from .fold import Instance, FuncVal
+        if isinstance(val, Instance):
+            get = self.db.find_method(val.ci, '__get__')
+            if get is not None:
+                inst = Instance(cv.ci, {'context': self.ctx(v)})
+                return self.F.call_func(FuncVal(get, bound=val),
+                                        [inst, cv], {}, cv.ci.node,
+                                        Env(get.module))
+        return val
 
     def definition(self, cv, v):
         """Field layout instance.definition denotes: list of (name, type
@@ -136,7 +150,7 @@ class Proto(object):
             elif ad.kind == 'def':
                 raw = self._call_cls(cv, 'get_definition', v)
             else:
-                raw = self.F.attrdef_value(ad, cv)
+                raw = self._instance_view(self.F.attrdef_value(ad, cv), cv, v)
         except FoldRaise as e:
             raw = Raises(e.exc_type, e.exc_args)
         self._defs[key] = raw
